@@ -2,10 +2,10 @@
    Only statements, closed by [exact lemma], with Print Assumptions beneath. *)
 From Coq Require Import String List NArith Bool Permutation.
 From J5V.lib Require Import Outcome.
-From J5V.model Require Import Pipeline PipelineCorr.
+From J5V.model Require Import Pipeline PipelineCompile PipelineEntity PipelineCorr.
 From J5V.gen Require SwaggerGen.
 From J5V.lib Require Strcase.
-From J5V.proofs Require Import PipelineProofs PipelineStrcaseProofs StrcaseProofs PipelineChainProofs.
+From J5V.proofs Require Import PipelineProofs PipelineStrcaseProofs StrcaseProofs PipelineChainProofs PipelinePathProofs PipelineEntityProofs.
 Import ListNotations.
 Local Open Scope N_scope.
 
@@ -36,6 +36,117 @@ Definition C16_full_statement : Prop :=
 Theorem C16_full : C16_full_statement.
 Proof. exact chain_full. Qed.
 Print Assumptions C16_full.
+
+
+(* ... instantiated with the byte-exact model of iancoleman/strcase ToSnake: the hypotheses on ToSnake are
+   replaced by a condition on the request's property names (lowerCamel: letters, no two adjacent capitals);
+   compile_image with this ToSnake is what the compile-image stream compares with the real compiler *)
+Theorem C16_full_strcase : forall P, valid_package_strcase P ->
+  let r := run_chain current_config (compile_image Strcase.to_snake P) in
+  exists ks,
+    cr_source r = Ok (declared_api P)
+    /\ cr_client r = Ok (declared_clients Strcase.to_snake P, ks)
+    /\ (forall x, In x ks <->
+          present (image_env Strcase.to_snake P) x /\
+          exists k, In k (flat_map method_roots (declared_clients Strcase.to_snake P))
+                    /\ present (image_env Strcase.to_snake P) k
+                    /\ reach (image_env Strcase.to_snake P) k x)
+    /\ cr_swagger r = Ok tt.
+Proof. exact chain_full_strcase. Qed.
+Print Assumptions C16_full_strcase.
+
+
+(* ... and for camelCase names with digits (lower_camel_d, proofs/StrcaseProofs.v: address2Line, fooB2,
+   v12Beta; still no two adjacent capitals) *)
+Theorem C16_full_strcase_digits : forall P, valid_package_strcase_d P ->
+  let r := run_chain current_config (compile_image Strcase.to_snake P) in
+  exists ks,
+    cr_source r = Ok (declared_api P)
+    /\ cr_client r = Ok (declared_clients Strcase.to_snake P, ks)
+    /\ (forall x, In x ks <->
+          present (image_env Strcase.to_snake P) x /\
+          exists k, In k (flat_map method_roots (declared_clients Strcase.to_snake P))
+                    /\ present (image_env Strcase.to_snake P) k
+                    /\ reach (image_env Strcase.to_snake P) k x)
+    /\ cr_swagger r = Ok tt.
+Proof. exact chain_full_strcase_d. Qed.
+Print Assumptions C16_full_strcase_digits.
+
+(* ---- each path parameter names a request property --------------------------------------------- *)
+(* about the code, without assuming that the declared path only uses request properties: whenever
+   buildMethod accepts a method, every ":name" of the client path is the JSON name of an input field of the
+   request message (a "{x}" part is mapped through the field found by proto name x; a literal part
+   containing ':' is rejected) ... *)
+Theorem C16_path_params_are_input_fields : forall m sm,
+  (forall f, In f (md_in_fields m) -> no_char SLASH (f_json f)) ->
+  build_method m = Ok sm ->
+  forall n, In n (path_param_names (sm_path sm)) -> exists f, In f (md_in_fields m) /\ f_json f = n.
+Proof. exact build_method_path_params. Qed.
+Print Assumptions C16_path_params_are_input_fields.
+
+(* ... and fillRequest puts the request property of that name among the path parameters *)
+Theorem C16_path_params_covered : forall verb path props n,
+  In n (path_param_names path) -> In n (map p_json props) ->
+  exists p, In p (r_path (fill_request verb path props)) /\ p_json p = n.
+Proof. exact fill_request_covers_params. Qed.
+Print Assumptions C16_path_params_covered.
+
+(* together, for what the compiler emits for a declared method (any ToSnake, any declared path) *)
+Theorem C16_path_params_name_request_properties : forall (to_snake : str -> str) (d : decl_full) sm,
+  (forall n, In n (map p_json (df_req d)) -> no_char SLASH n) ->
+  build_method (compile_method to_snake (df_decl d)) = Ok sm ->
+  forall n, In n (path_param_names (sm_path sm)) ->
+    exists p, In p (r_path (fill_request (sm_verb sm) (sm_path sm) (df_req d))) /\ p_json p = n.
+Proof. exact declared_path_params_name_props. Qed.
+Print Assumptions C16_path_params_name_request_properties.
+
+
+(* ---- entities ------------------------------------------------------------------------------------- *)
+(* walkSourceSchemas / includeEntity over the annotated objects of the package, in whatever order Go's map
+   iteration delivers them: when parts are in 1..4, every (entity, part) is annotated once and every entity
+   has its keys, state and event object, it does not fail and every keys / state / event object becomes a
+   walk root *)
+Theorem C16_walk_source_schemas_total : forall anns, wf_anns anns ->
+  exists es, walk_source_schemas anns = Ok es
+    /\ forall a, In a anns -> stored_part (a_part a) -> In (a_key a) (entity_roots es).
+Proof. exact walk_source_schemas_total. Qed.
+Print Assumptions C16_walk_source_schemas_total.
+
+(* every schema reachable from a property of an entity's keys / state / event object is in the client
+   package's schema set *)
+Theorem C16_entity_roots_closed : forall (im : image) (ms : list client_method) ks r s k x,
+  collect_refs im ms = Ok ks ->
+  In r (im_roots im) -> lookup (im_schemas im) r = Some s -> In k (succs s) ->
+  present (im_schemas im) k -> reach (im_schemas im) k x -> present (im_schemas im) x ->
+  In x ks.
+Proof. exact entity_roots_closed. Qed.
+Print Assumptions C16_entity_roots_closed.
+
+(* the chain with entities, PARTIAL: from the method stage on. What an entity expands to on the compiler
+   side (its generated query / command services and their request / response objects) is not in
+   compile_image, so the source and method stages are hypotheses here (they are theorems for declared
+   services: C16_full). *)
+Theorem C16_chain_with_entities_partial : forall im anns api ms,
+  add_structure (im_services im) {| sa_services := []; sa_topics := [] |} = Ok api ->
+  wf_anns anns ->
+  (forall es, walk_source_schemas anns = Ok es -> exists evs, omapM (entity_events (im_schemas im)) es = Ok evs) ->
+  all_refs_link (im_schemas im) = true -> wf_env (im_schemas im) ->
+  (forall es, walk_source_schemas anns = Ok es -> forall k, In k (entity_roots es) -> present (im_schemas im) k) ->
+  methods_from_source true (with_roots im []) api = Ok ms ->
+  Forall wf_client_method ms ->
+  (forall k, In k (flat_map method_roots ms) -> present (im_schemas im) k) ->
+  let r := run_chain_ent current_config im anns in
+  exists es ks,
+    walk_source_schemas anns = Ok es
+    /\ cr_source r = Ok api
+    /\ cr_client r = Ok (ms, ks)
+    /\ (forall x, In x ks <->
+          present (im_schemas im) x /\
+          exists k, In k (root_refs (im_schemas im) (entity_roots es) ++ flat_map method_roots ms)
+                    /\ present (im_schemas im) k /\ reach (im_schemas im) k x)
+    /\ cr_swagger r = Ok tt.
+Proof. exact chain_with_entities. Qed.
+Print Assumptions C16_chain_with_entities_partial.
 
 (* ---- source API: exactly the declared services and methods, declared verb and path ------- *)
 (* buildMethod on what the compiler emits for one method: accepted, verb and path recovered.
@@ -310,3 +421,12 @@ Proof. cbv zeta. split; [vm_compute; reflexivity|]. eexists. split; vm_compute; 
 Example C16_example_swagger :
   wf_ty (TArray (TScalar "timestamp")) /\ convert_ok SwaggerGen.convert_schema_arms (TMap (TScalar "decimal")) = true.
 Proof. split; vm_compute; reflexivity. Qed.
+
+(* two entities whose keys / data / state / event objects arrive in a shuffled order: the hypotheses of
+   C16_walk_source_schemas_total hold and the six keys / state / event objects are the walk roots *)
+Example C16_example_entities :
+  wf_anns ent_ex_anns
+  /\ omap entity_roots (walk_source_schemas ent_ex_anns)
+     = Ok [ (ent_ex_pkg, bytes_of "WidgetKeys"); (ent_ex_pkg, bytes_of "WidgetState"); (ent_ex_pkg, bytes_of "WidgetEvent");
+            (ent_ex_pkg, bytes_of "GadgetKeys"); (ent_ex_pkg, bytes_of "GadgetState"); (ent_ex_pkg, bytes_of "GadgetEvent") ].
+Proof. exact (conj ent_ex_anns_wf ent_ex_anns_result). Qed.
